@@ -25,6 +25,12 @@ EvM == MMesh(Ev.p, ToSetOf(Ev.R))
 TInit == l = 1 /\ bad = <<>> /\ patt = <<>> /\ shade = {}
 TLicence == /\ Ev.op = "Licence"
             /\ bad' = IF SemShadable(EvM, ToSetOf(Ev.cells)) THEN bad ELSE Flag("LicenceChangesMeaning")
+\* A licence on a pattern too long for its meaning to be explored, together with a permutation q offered as a witness that the
+\* licensed shading changes the meaning (found by the harness by whatever means): the specification decides whether q is one -
+\* it contains the pattern and avoids the pattern with the licensed cells shaded.  A confirmed witness is a violation; an
+\* unconfirmed one says nothing (clause "ok").
+TRefuted == /\ Ev.op = "Refuted"
+            /\ bad' = IF MContains(Ev.q, EvM) /\ ~MContains(Ev.q, MShade(EvM, ToSetOf(Ev.cells))) THEN Flag("LicenceChangesMeaning") ELSE bad
 TAddPoint == /\ Ev.op = "AddPoint"
              /\ LET A == MAddPoint(EvM, Ev.c, Ev.dir) IN
                 bad' = IF A.p = Ev.resp /\ A.R = ToSetOf(Ev.resR) THEN bad ELSE Flag("AddPointIsDiagramInsertion")
@@ -40,6 +46,6 @@ TRect == /\ Ev.op = "Rect"
                     ELSE IF Ev.pointfree # RectPointFreeOf(EvM, Ev.r) THEN Flag("RegionPointFree") ELSE bad
 TAscii == /\ Ev.op = "Ascii"
           /\ bad' = IF Ev.rows = AsciiOf(EvM, Ev.s) THEN bad ELSE Flag("RenderingFaithful")
-TNext == l <= Len(Trace) /\ l' = l + 1 /\ UNCHANGED vars /\ (TLicence \/ TAddPoint \/ TAddTwo \/ TShade \/ TRect \/ TAscii)
+TNext == l <= Len(Trace) /\ l' = l + 1 /\ UNCHANGED vars /\ (TLicence \/ TRefuted \/ TAddPoint \/ TAddTwo \/ TShade \/ TRect \/ TAscii)
 TraceDone == l = Len(Trace) + 1 => PrintT(ToJson([verdict |-> bad, drift |-> <<>>, n |-> Len(Trace)]))
 =============================================================================
